@@ -110,6 +110,7 @@ Section ConsField.
   Variable g : cons -> B.
   Hypothesis g_cpc : forall x p, g (with_cpc x p) = g x.
   Hypothesis g_acc : forall x p n sn b, g (acc_set x p n sn b) = g x.
+  Hypothesis g_done : forall x, g (cb_done x) = g x.
 
   Lemma cfd_setc s c y : c < length (conss s) -> g y = g (getc s c) -> map g (conss (setc s c y)) = map g (conss s).
   Proof. intros Hl Hy. rewrite conss_setc. apply (map_set_nth_keep g _ _ _ cons0). intros _. exact Hy. Qed.
@@ -151,9 +152,9 @@ Section ConsField.
   Proof.
     unfold cb_return. destruct (nth_error (conss s) c) as [x|] eqn:Ex; [|reflexivity]. destruct (getc_nth_error s c x Ex) as [Eg Hl].
     destruct (ck x); try reflexivity. destruct (cpcv x); try reflexivity.
-    assert (AR : forall e', map g (conss (acc_ret s c x e')) = map g (conss s)) by (intros e'; unfold acc_ret; now apply (cfd_own s c x x e' Ex)).
+    assert (AR : forall e', map g (conss (acc_ret s c (cb_done x) e')) = map g (conss s)) by (intros e'; unfold acc_ret; now apply (cfd_own s c x (cb_done x) e' Ex (g_done x))).
     destruct (ccanc x); [apply AR|].
-    match goal with |- _ (conss (if ?b then _ else _)) = _ => destruct b end; [apply AR | apply cfd_setc; [exact Hl | now rewrite g_cpc, Eg]].
+    match goal with |- _ (conss (if ?b then _ else _)) = _ => destruct b end; [apply AR | apply cfd_setc; [exact Hl | now rewrite g_cpc, g_done, Eg]].
   Qed.
 End ConsField.
 
@@ -392,7 +393,7 @@ Proof. unfold nf. intros H. now inversion H. Qed.
 
 Lemma W2_step s e : Inv s -> InvCh s -> InvA s -> W2 s -> W2 (step repaired s e).
 Proof.
-  intros HI HCh HA HW. destruct e as [c|k|r|a|g|a|g en|g v hr er|g|k|c|c|c|c res|c]; cbn [step].
+  intros HI HCh HA HW. destruct e as [c|k|r|a|g|a|g en|g v hr er|g|k|c|c|c|c res|c|c]; cbn [step].
   - unfold set_context. destruct (Nat.eqb (kctx s) c); [exact HW|]. cbn [fst]. apply NoLive_W2, start_resolve_nolive.
     + apply (InvA_Qext s); auto.
     + apply (W2_wst s); [reflexivity | exact HW].
@@ -452,6 +453,8 @@ Proof.
   - apply (W2_frame s); [apply vw_cb_return | apply wwf_cb_return | apply (vf_fields _ _ (vf_cb_return repaired s c res)) | apply nf_nonce; apply (cf_cb_return nf); reflexivity | exact HW].
   - destruct (Nat.eqb c 0); [exact HW|]. destruct (cancel_root_frame s c) as [E1 [_ [E3 [_ [_ [E6 _]]]]]].
     apply (W2_wst s); [|exact HW]. unfold wst, wst1. now rewrite E1, E3, E6, (nf_nonce _ _ (nf_cancel_root s c)).
+  - destruct (watch_step_spec s c) as [->|[x [y [Hx [-> Hy]]]]]; [exact HW|]. wsplit Hy. destruct (getc_nth_error s c x Hx) as [Eg Hl].
+    apply setc_W2; [exact Hl | rewrite Eg; unfold cw3, wwf; now rewrite Wck, Wcref, Wwres, Wwnonce, Wwonce, Wwprom | exact HW].
 Qed.
 
 Theorem run_W2 k es : Forall wf_ev es -> W2 (run repaired (init k) es).
@@ -559,7 +562,7 @@ Lemma cb_return_other fx s c res c' : c' <> c -> getc (cb_return fx s c res) c' 
 Proof.
   intros Hne. unfold cb_return. destruct (nth_error (conss s) c) as [x|]; [|reflexivity].
   destruct (ck x); try reflexivity. destruct (cpcv x); try reflexivity.
-  assert (AR : forall e', getc (acc_ret s c x e') c' = getc s c') by (intros e'; unfold acc_ret; now apply own_other).
+  assert (AR : forall y e', getc (acc_ret s c y e') c' = getc s c') by (intros y e'; unfold acc_ret; now apply own_other).
   destruct (ccanc x); [apply AR|].
   match goal with |- getc (if ?b then _ else _) _ = _ => destruct b end; [apply AR | now apply getc_setc_other].
 Qed.
@@ -569,7 +572,7 @@ Proof. intros H. unfold getc. change (g cons0) with (g cons0). rewrite <- !(map_
 
 Lemma step_K1 s e : K1 (conss s) -> K1 (conss (step repaired s e)).
 Proof.
-  intros H. destruct e as [c|k|r|a|g|a|g en|g v hr er|g|k|c|c|c|c res|c]; try (apply (Q_step_container K1 invoke_K1); [exact I | exact H]); cbn [step].
+  intros H. destruct e as [c|k|r|a|g|a|g en|g v hr er|g|k|c|c|c|c res|c|c]; try (apply (Q_step_container K1 invoke_K1); [exact I | exact H]); cbn [step].
   - unfold release_section. destruct (nth_error (relacts s) a) as [x|]; [|exact H]. destruct (ra_pc x); [|exact H].
     set (s1 := remove_ref _ (ra_ref x)). assert (H1 : K1 (conss s1)) by (apply (Q_remove_ref K1 invoke_K1); exact H).
     destruct (ra_cons x) as [c|]; [|exact H1]. destruct (cpcv (getc s1 c)) eqn:Ec; try exact H1.
@@ -600,6 +603,8 @@ Proof.
     pose proof (map_nth_getc ck s (cb_return repaired s c res) c (f_equal v_ck (vw_cb_return repaired s c res))) as Ek. rewrite Ek in Hk.
     unfold cb_return in *. destruct (nth_error (conss s) c) as [x|] eqn:Ex; [|now apply K1_getc].
     destruct (getc_nth_error s c x Ex) as [Egx _]. rewrite Egx in Hk. rewrite Hk. apply K1_getc; [exact H | now rewrite Egx].
+  - destruct (watch_step_spec s c) as [->|[x [y [Hx [-> Hy]]]]]; [exact H|]. wsplit Hy. rewrite conss_setc. apply K1_set; [exact H|].
+    intros Hk. rewrite Wck in Hk. pose proof (H c x Hx Hk) as W. unfold wok1 in *. now rewrite Wwprom, Wwres, Wcpcv.
 Qed.
 
 Theorem run_K1 k es : K1 (conss (run repaired (init k) es)).
@@ -628,7 +633,7 @@ Qed.
 
 Lemma step_Once c s e : Once c (conss s) -> Once c (conss (step repaired s e)).
 Proof.
-  intros H. destruct e as [c0|k|r|a|g|a|g en|g v hr er|g|k|c0|c0|c0|c0 res|c0];
+  intros H. destruct e as [c0|k|r|a|g|a|g en|g v hr er|g|k|c0|c0|c0|c0 res|c0|c0];
     try (apply (Q_step_container (Once c) (invoke_Once c)); [exact I | exact H]); cbn [step].
   - unfold release_section. destruct (nth_error (relacts s) a) as [x|]; [|exact H]. destruct (ra_pc x); [|exact H].
     set (s1 := remove_ref _ (ra_ref x)). assert (H1 : Once c (conss s1)) by (apply (Q_remove_ref (Once c) (invoke_Once c)); exact H).
@@ -643,6 +648,8 @@ Proof.
     unfold Once in H. fold (getc s c) in H. rewrite (getc_x s c x Ex) in H. exact H.
   - unfold Once. fold (getc (cb_return repaired s c0 res) c) (getc s c).
     destruct (wwf_fields _ _ (map_nth_getc wwf s _ c (wwf_cb_return repaired s c0 res))) as [_ [_ [E _]]]. rewrite E. exact H.
+  - destruct (watch_step_spec s c0) as [->|[x [y [Hx [-> Hy]]]]]; [exact H|]. wsplit Hy. rewrite conss_setc. apply Once_set; [exact H|]. intros ->.
+    unfold Once in H. fold (getc s c) in H. rewrite (getc_x s c x Hx) in H. congruence.
 Qed.
 
 Lemma settle_Once c s : Once c (conss s) -> Once c (conss (settle s)).
